@@ -177,6 +177,9 @@ fn cmd_check(args: &[String]) -> i32 {
         br.stats.faults,
         if exit == 0 { 0 } else { br.violations.len() }
     );
+    if br.reexec_mismatch > 0 {
+        println!("NOTE: {} of {} runs re-executed with the same seed in the same process produced a different event digest: hidden state (cache, pool, thread-local) in the code under test makes executions history-dependent; replay files are exact only in a fresh process", br.reexec_mismatch, br.reexec_sampled);
+    }
     if exit == 0 && br.distinct_nontrivial < 2 {
         eprintln!("HARNESS-ERROR: fewer than 2 distinct non-trivial runs; the workload does not reach the property");
         return 2;
